@@ -972,7 +972,10 @@ class Executor(object):
             m.pc, m.pcset, m.kctor, m.xctor = [], set(), {}, {}
             for c in prefix:
                 m._add(c)
-            m._add(Or(*conds))
+            if not self.spec_mode:
+                # in spec mode the split-off exceptional paths were proved infeasible, so the
+                # disjunction of the branch conditions is implied by the prefix
+                m._add(Or(*conds))
             m.trace = list(base.trace)
             res.append((m, val))
         return res + other
@@ -1249,14 +1252,33 @@ class Executor(object):
                 return Ite(Lt(Add(n, intlit(i)), intlit(0)), intlit(0), Add(n, intlit(i)))
             return Ite(Is('VNone', b), default, App('clamp_idx', INT, as_int(b), n))
 
+        def litint(b):
+            if b is None:
+                return None
+            if b.op == 'ctor' and b.args[0] == 'VInt' and b.args[1].op == 'int':
+                return b.args[1].args[0]
+            return 'sym'
+
         s_case = st.assume(Is('VStr', v))
         if s_case is not None:
             s = Acc('sv', v)
             n = StrLen(s)
-            a = bound(lo, intlit(0), n)
-            z = bound(hi, n, n)
-            ln = Ite(Gt(z, a), Sub(z, a), intlit(0))
-            out.append((s_case, VStr(App('str.substr', STR, s, a, ln))))
+            li, hi_ = litint(lo), litint(hi)
+            if (li is None or (li != 'sym' and li >= 0)) and (hi_ is None or hi_ != 'sym'):
+                # literal bounds: SMT-LIB substr already clamps like Python here
+                a0 = 0 if li is None else li
+                if hi_ is None:
+                    ln = n
+                elif hi_ < 0:
+                    ln = Add(n, intlit(hi_ - a0))
+                else:
+                    ln = intlit(max(hi_ - a0, 0))
+                out.append((s_case, VStr(App('str.substr', STR, s, intlit(a0), ln))))
+            else:
+                a = bound(lo, intlit(0), n)
+                z = bound(hi, n, n)
+                ln = Ite(Gt(z, a), Sub(z, a), intlit(0))
+                out.append((s_case, VStr(App('str.substr', STR, s, a, ln))))
         for ctor, acc in (('VTuple', 'tv'), ('VList', 'lv')):
             c = st.assume(Is(ctor, v))
             if c is not None:
